@@ -18,6 +18,7 @@ package c16
 // two HTTP removals per history ((*HTTP).Stop() always waits 5 s).
 
 import (
+	"bufio"
 	"bytes"
 	"crypto/tls"
 	"fmt"
@@ -62,6 +63,10 @@ type LOp struct {
 	Uris    []string `json:"uris,omitempty"`
 	Headers []string `json:"headers,omitempty"`
 
+	// remove of a running HTTP listener: client connections the harness holds open across it
+	Conns  string `json:"conns,omitempty"`  // "" none | inflight (POST headers + part of the body sent) | idle (keep-alive connection after a completed request) | silent (connected, nothing sent)
+	NConns int    `json:"nconns,omitempty"` // 1-2
+
 	SvcReply string `json:"svc_reply,omitempty"` // svc add: how the service script answers ListenerStart: ok | error | silent
 	Stale    bool   `json:"stale,omitempty"`     // edit: the dialog was opened while the name was an HTTP listener (Protocol "Http" whatever it is now)
 }
@@ -95,6 +100,15 @@ func genHTTPAdd(t *rapid.T, op *LOp) {
 	op.Secure = rapid.IntRange(0, 9).Draw(t, "secure") == 0
 	if rapid.IntRange(0, 7).Draw(t, "via") == 0 {
 		op.Via = "start"
+	}
+}
+
+// genRemoveConns draws the class of client connections that are open while an HTTP
+// listener is removed.  They cost nothing extra: (*HTTP).Stop() takes 5 s either way.
+func genRemoveConns(t *rapid.T, op *LOp) {
+	op.Conns = rapid.SampledFrom([]string{"", "", "", "inflight", "inflight", "idle", "silent"}).Draw(t, "conns")
+	if op.Conns != "" {
+		op.NConns = rapid.IntRange(1, 2).Draw(t, "nconns")
 	}
 }
 
@@ -142,6 +156,7 @@ func genOps(t *rapid.T, n int, pred map[string]string, httpRemovals *int) []LOp 
 					break
 				}
 				*httpRemovals--
+				genRemoveConns(t, &op)
 			}
 			op.Op = "remove"
 			delete(pred, op.Name)
@@ -181,8 +196,20 @@ func genB(t *rapid.T) CaseA {
 	}
 	ops = append(ops, genOps(t, rapid.IntRange(0, 2).Draw(t, "n2"), pred, &none)...)
 	if pred[name] == "http" {
-		ops = append(ops, LOp{Op: "remove", Name: name})
+		rm := LOp{Op: "remove", Name: name}
+		genRemoveConns(t, &rm)
+		ops = append(ops, rm)
 		delete(pred, name)
+		if rapid.Bool().Draw(t, "reuse-name") {
+			// the name must be usable again right away
+			re := LOp{Op: "add", Name: name, Kind: rapid.SampledFrom([]string{"http", "smb", "ext"}).Draw(t, "rekind")}
+			if re.Kind == "http" {
+				genHTTPAdd(t, &re)
+				genHTTPCfg(t, &re)
+			}
+			ops = append(ops, re)
+			pred[name] = re.Kind
+		}
 	}
 	ops = append(ops, genOps(t, rapid.IntRange(0, 4).Draw(t, "n3"), pred, &left)...)
 	return CaseA{Ops: ops}
@@ -313,6 +340,56 @@ func (w *worldA) guard(what string, f func(), info ...map[string]string) (v *cor
 	}()
 	f()
 	return nil
+}
+
+// holdOpen opens n client connections to the running HTTP(S) listener e in the given
+// state and returns them; the caller closes them after the removal.
+func (w *worldA) holdOpen(e *ent, class string, n int) ([]net.Conn, error) {
+	var out []net.Conn
+	for k := 0; k < n; k++ {
+		var c net.Conn
+		var err error
+		if e.secure {
+			c, err = tls.DialWithDialer(&net.Dialer{Timeout: svcx.Bound}, "tcp", "127.0.0.1:"+e.port, &tls.Config{InsecureSkipVerify: true})
+		} else {
+			c, err = net.DialTimeout("tcp", "127.0.0.1:"+e.port, svcx.Bound)
+		}
+		if err != nil {
+			return out, err
+		}
+		out = append(out, c)
+		p := probeFor(e.cfg)
+		var hdr strings.Builder
+		fmt.Fprintf(&hdr, "POST %s HTTP/1.1\r\nHost: 127.0.0.1:%s\r\nUser-Agent: %s\r\n", p.URI, e.port, p.UA)
+		for k, v := range p.Headers {
+			fmt.Fprintf(&hdr, "%s: %s\r\n", k, v)
+		}
+		c.SetDeadline(time.Now().Add(svcx.Bound))
+		switch class {
+		case "inflight":
+			// headers complete, 10 of 200 announced body bytes: the handler is reading the body
+			fmt.Fprintf(&hdr, "Content-Length: 200\r\n\r\n0123456789")
+			if _, err := c.Write([]byte(hdr.String())); err != nil {
+				return out, err
+			}
+		case "idle":
+			// a complete (refused: not an agent package) request, answer read, connection kept
+			fmt.Fprintf(&hdr, "Content-Length: 4\r\n\r\nping")
+			if _, err := c.Write([]byte(hdr.String())); err != nil {
+				return out, err
+			}
+			resp, err := http.ReadResponse(bufio.NewReader(c), nil)
+			if err != nil {
+				return out, err
+			}
+			io.Copy(io.Discard, resp.Body)
+			resp.Body.Close()
+		case "silent":
+		}
+		c.SetDeadline(time.Time{})
+	}
+	svcx.Quiesce()
+	return out, nil
 }
 
 func kindOfListener(l *server.Listener) string {
@@ -755,10 +832,30 @@ func checkA(c CaseA) *core.Violation {
 			if me != nil {
 				label = "remove-" + me.kind
 			}
-			if v := w.operate("remove", packager.Type.Listener.Remove, map[string]string{"Name": op.Name}); v != nil {
+			var held []net.Conn
+			if op.Conns != "" && me != nil && me.kind == "http" && me.active && me.port != "" {
+				n := op.NConns
+				if n < 1 || n > 4 {
+					n = 1
+				}
+				var herr error
+				if held, herr = w.holdOpen(me, op.Conns, n); herr != nil {
+					for _, c := range held {
+						c.Close()
+					}
+					return core.V("listener|remove|http|not-serving-before-removal", "step %d: cannot open a %s connection to the running listener %q on port %s: %v", i, op.Conns, op.Name, me.port, herr)
+				}
+				label += "-with-" + op.Conns + "-connection"
+			}
+			v := w.operate("remove", packager.Type.Listener.Remove, map[string]string{"Name": op.Name})
+			quiet := svcx.Quiesce()
+			for _, c := range held {
+				c.Close()
+			}
+			if v != nil {
 				return v
 			}
-			if !svcx.Quiesce() {
+			if !quiet || !svcx.Quiesce() {
 				return inconclusive("teamserver goroutines did not come to rest after remove")
 			}
 			if after := find(ts, op.Name); len(after) != 0 {
@@ -783,7 +880,7 @@ func checkA(c CaseA) *core.Violation {
 func classifyA(c CaseA) core.Class {
 	var cl core.Class
 	pred := map[string]string{}
-	dup, unknown, failed, httpRm, stale, unusual := 0, 0, 0, 0, 0, 0
+	dup, unknown, failed, httpRm, stale, unusual, inflight := 0, 0, 0, 0, 0, 0, 0
 	kinds := map[string]bool{}
 	for _, op := range c.Ops {
 		k, present := pred[op.Name]
@@ -842,6 +939,14 @@ func classifyA(c CaseA) core.Class {
 				cl.Labels = append(cl.Labels, "remove:"+k)
 				if k == "http" {
 					httpRm++
+					c := op.Conns
+					if c == "" {
+						c = "none"
+					}
+					cl.Labels = append(cl.Labels, "remove-http-open-connections:"+c)
+					if op.Conns == "inflight" {
+						inflight++
+					}
 				}
 				delete(pred, op.Name)
 			}
@@ -859,7 +964,7 @@ func classifyA(c CaseA) core.Class {
 		ks = append(ks, k)
 	}
 	sort.Strings(ks)
-	cl.Fingerprint = fmt.Sprintf("dup=%d|unk=%d|fail=%d|httprm=%d|stale=%d|emptyfield=%d|kinds=%s", b(dup), b(unknown), b(failed), b(httpRm), b(stale), b(unusual), strings.Join(ks, "+"))
+	cl.Fingerprint = fmt.Sprintf("dup=%d|unk=%d|fail=%d|httprm=%d|stale=%d|emptyfield=%d|inflightrm=%d|kinds=%s", b(dup), b(unknown), b(failed), b(httpRm), b(stale), b(unusual), b(inflight), strings.Join(ks, "+"))
 	return cl
 }
 
